@@ -38,20 +38,21 @@ def expected_line(op, R):
 
 
 def compare(op, R, model_line):
-    """returns (ok, detail, eok, nn)"""
+    """returns (ok, detail, eok, nn, failed_clauses)"""
     exp = expected_line(op, R)
     main, _, tail = model_line.rpartition(" | N ")
     eok = "EOK=1" in tail
     nn = "NN=1" in tail
+    failed = tail.partition(" F=")[2].strip()
     if not eok:
         # a recorded pass violates the engine contract (EngineOK): the Layer A theorems do not
         # apply to this call and the C reads unset scratch memory; reported by the callers as a
         # contract failure (C04/C01), never as a broken correspondence
-        return None, "contract", eok, nn
+        return None, "contract", eok, nn, failed
     if not R["ret"]:
         # on failure only the return value is compared (arrays are unspecified)
         ok = main.startswith("R 0 ")
-        return ok, "" if ok else "model predicts success, implementation returned 0", eok, nn
+        return ok, "" if ok else "model predicts success, implementation returned 0", eok, nn, failed
     # a cursor outside the consumed input reads caller garbage; not compared
     t = op.split(" ")
     cur_ok = True
@@ -64,5 +65,5 @@ def compare(op, R, model_line):
         exp = re.sub(r" cur=\S+", " cur=*", exp)
         main = re.sub(r" cur=\S+", " cur=*", main)
     if exp == main:
-        return True, "", eok, nn
-    return False, "expected: %s\nmodel:    %s" % (exp[:1500], main[:1500]), eok, nn
+        return True, "", eok, nn, failed
+    return False, "expected: %s\nmodel:    %s" % (exp[:1500], main[:1500]), eok, nn, failed
